@@ -748,7 +748,10 @@ static void build_cases(std::vector<History> &cases)
       for (int a = 0; a < 2; a++)
         for (int p = 0; p < 2; p++)
           for (int nm = 0; nm < 2; nm++) {
-            if (!th && nm != (int)((i + a + p) & 1))  // quick: thread naming alternates instead of being crossed
+            // quick, and thorough with 3 or more threads: thread naming alternates instead of being crossed
+            if ((!th || T >= 3) && nm != (int)((i + a + p) & 1))
+              continue;
+            if (th && T >= 3 && p != (int)((i + a + T) & 1))  // thorough, 3 or more threads: processName alternates too
               continue;
             History h;
             h.api = apis[a];
@@ -772,9 +775,9 @@ static void build_cases(std::vector<History> &cases)
           for (int a = 0; a < 2; a++)
             for (int p = 0; p < 2; p++)
               for (int nm = 0; nm < 2; nm++) {
-                if (!th && nm != ((li + d + a + p) & 1))
+                if ((!th || T >= 3) && nm != ((li + d + a + p) & 1))
                   continue;
-                if (!th && T == 8 && p != ((li + d + a) & 1))  // quick, 8 threads: processName alternates too
+                if ((th ? T >= 3 : T == 8) && p != ((li + d + a + T) & 1))  // many threads: processName alternates too
                   continue;
                 History h;
                 h.api = apis[a];
